@@ -312,6 +312,25 @@ func (s *OuterJoin) receiveRecord(ctx ExecutionContext, produce ProduceFn, myRec
 		key[i] = value
 	}
 
+	for i := range key {
+		if key[i].TypeID == octosql.TypeIDNull {
+			// An equality never holds for NULL, so this record matches nothing, now or later:
+			// on an outer side it is emitted with nulls on the other side, otherwise dropped.
+			if (s.isOuterLeft && amLeft) || (s.isOuterRight && !amLeft) {
+				outputValues := make([]octosql.Value, s.leftFieldCount+s.rightFieldCount)
+				if amLeft {
+					copy(outputValues, record.Values)
+				} else {
+					copy(outputValues[s.leftFieldCount:], record.Values)
+				}
+				if err := produce(ProduceFromExecutionContext(ctx), NewRecord(outputValues, record.Retraction, record.EventTime)); err != nil {
+					return fmt.Errorf("couldn't produce: %w", err)
+				}
+			}
+			return nil
+		}
+	}
+
 	firstRecordForThatKeyOnThisSide := false
 	lastRetractionForThatKeyOnThisSide := false
 	{
